@@ -45,6 +45,8 @@ func TestRaceAdjunct(t *testing.T) {
 	w, _ := buildC02World(t, r)
 	defer w.Cleanup()
 	w.MkDir("w")
+	mkCDImage(w.Root, cdImg{name: "cd2336.bin", sector: 2336, sig: "psx", size: 0x200000}, 3)
+	mkCDImage(w.Root, cdImg{name: "cd2448.bin", sector: 2448, sig: "iso", size: 0x200000}, 4)
 	h := buildHandler(SrvOpts{Root: w.Root, AllowWrite: true})
 	ln, err := net.Listen("tcp", "127.0.0.1:0")
 	if err != nil {
@@ -61,6 +63,8 @@ func TestRaceAdjunct(t *testing.T) {
 		{mkReq(opOpenFile, "/PS3ISO/r.iso"), rdReq(6000, 300), rdcReq(2047, 2049*3)},
 		{mkReq(opOpenDir, "/plain"), noargReq(opReadDirEntry), noargReq(opReadDirEntryV2), noargReq(opReadDir)},
 		{mkReq(opStatFile, "/game"), mkReq(opGetDirSize, "/game"), mkReq(opOpenFile, "/k3/e.iso"), rdReq(0xF60, 300)},
+		{mkReq(opOpenFile, "/cd2336.bin"), cdReq(1, 3), mkReq(opOpenFile, "/cd2448.bin"), cdReq(2, 2)},
+		{mkReq(opOpenFile, "/cd2448.bin"), cdReq(1, 3), mkReq(opOpenFile, "/cd2336.bin"), cdReq(16, 1)},
 	}
 	var solo [][]byte
 	for _, sc := range scripts {
